@@ -7,6 +7,7 @@ import (
 	"bytes"
 	"encoding/binary"
 	"fmt"
+	"sync/atomic"
 	"time"
 
 	nt "github.com/mit-pdos/go-nfsd/nfstypes"
@@ -39,6 +40,16 @@ func ForgedRef(n *MNode, delta uint64) Ref {
 		binary.LittleEndian.PutUint64(fh[8:], g+delta)
 	}
 	return Ref{N: nil, FH: fh, Desc: fmt.Sprintf("forged-gen(%s,%+d)", n.Path(), int64(delta)), WellFormedStale: true}
+}
+
+// SafeForged returns a forged handle unless the forged bytes happen to be a handle that was issued
+// (then the dead handle of n itself, or garbage, is used instead).
+func (x *Exec) SafeForged(n *MNode, delta uint64) Ref {
+	r := ForgedRef(n, delta)
+	if _, issued := x.allFH[string(r.FH)]; issued {
+		return GarbageRef([]byte{0xde, 0xad})
+	}
+	return r
 }
 
 func GarbageRef(b []byte) Ref {
@@ -108,7 +119,7 @@ func NewExec(s *Srv, prop string) (*Exec, error) {
 		lim = Limits{NameMax: uint64(pc.Resok.Name_max), WtMax: uint64(fi.Resok.Wtmax), RtMax: uint64(fi.Resok.Rtmax),
 			MaxFileSize: uint64(fi.Resok.Maxfilesize)}
 	})
-	if o.Bad() {
+	if o.Bad() || o.Slow {
 		return nil, fmt.Errorf("FSINFO/PATHCONF: %v", o)
 	}
 	if err != nil {
@@ -159,7 +170,16 @@ func dataKind(got, want byte) string {
 
 // call runs one RPC under the watchdog.
 func (x *Exec) call(f func()) error {
-	o := Guard(x.Watchdog, f)
+	var txn func() int64
+	if x.S != nil && x.S.N != nil {
+		mon := x.S.Mon()
+		txn = func() int64 { return atomic.LoadInt64(&mon.Begun) }
+	}
+	o := GuardTxn(x.Watchdog, f, txn)
+	if o.Slow {
+		St.Class("call_too_slow_for_the_harness_not_judged")
+		return x.errk("slow", "%v", o)
+	}
 	if o.Hung {
 		return x.errk("hang", "%v", o)
 	}
@@ -617,6 +637,10 @@ func (x *Exec) removeLike(rmdir bool, dir Ref, name string) error {
 		return err
 	}
 	want := x.M.CanRemove(dir.N, name, rmdir)
+	if want && !rmdir && dir.N.Children[name].IsDir() && st != nt.NFS3_OK {
+		// RFC 1813 leaves it to the server whether REMOVE may remove a directory; a refusal changes nothing
+		want = false
+	}
 	refs := []Ref{dir}
 	if name == "." || name == ".." {
 		refs = nil // refused because of the name, whatever the handle
